@@ -23,4 +23,4 @@ s=$(date +%s)
 e=$(date +%s)
 git checkout -q -- src
 viol=$(grep -c "^VIOLATION property=$P" /tmp/mutcheck-$P-$X.txt)
-echo "$P-$X tier=$TIER baseline_demo=[$base] mutant_demo=[$demo_fail] preexisting_failed_targets=$other_failed check_rc=$rc violation_lines=$viol secs=$((e-s))" | tee -a /var/tmp/mut-results.txt
+echo "$P-$X tier=$TIER baseline_demo=[$base] mutant_demo=[$demo_fail] preexisting_failed_targets=$other_failed check_rc=$rc violation_lines=$viol secs=$((e-s))" | tee -a /var/tmp/mut-results.txt | tee -a /verif/seeded/results.txt
